@@ -97,4 +97,20 @@ def Sys.objectsMirror (s : Sys) : Bool :=
     | none => true
     | some ok => sameNames (keys ok.currentSet.published) p.2.publishedNames
 
+/-- `CertAuth::has_pending_requests(parent)` (certauth.rs:1720-1727): what makes
+`ca_sync_parent` send requests instead of fetching entitlements. -/
+def Ca.hasPendingRequests (s : Ca) (p : Handle) : Bool :=
+  s.classes.any fun q => decide (q.2.parent = p) && q.2.keys.hasPending
+
+/-- The child has converged on the parent's list: nothing to send, every class under the parent
+is listed, and for every listed class the matching resource class creates no event (no key
+wants an update, no listed key is unknown). -/
+def Ca.convergedB (s : Ca) (p : Handle) (ents : List Entitlement) (now : Int) : Bool :=
+  !s.hasPendingRequests p &&
+  s.classes.all (fun q => !decide (q.2.parent = p) || (ents.map (·.rcn)).contains q.2.parentRcn) &&
+  ents.all fun ent =>
+    match s.findParentRc p ent.rcn with
+    | some q => (q.2.keys.entitlementEvents ent now).isEmpty
+    | none => false
+
 end KM.CaK
